@@ -298,14 +298,21 @@ def clsDesc (params : List (Str × Str)) (name : Str) : Str :=
 
 /-- what the extractor sees of one class -/
 structure ClassSrc where
-  source : Str                      -- inspect.getsource(cls)
+  source : Option Str               -- inspect.getsource(cls); `none` = TypeError / OSError (no source file)
   doc : Option Str                  -- cls.__doc__
   params : List (Str × Str)         -- docstring_parser params of inspect.getdoc(cls)
+
+/-- the lines the scanner works on: the source without `__doc__`; `none` = no source -/
+def classLines (c : ClassSrc) : Option (List Str) :=
+  c.source.map (fun src => splitLines (removeDoc c.doc src))
 
 /-- a class that does not (re-)declare the field but documents it in its class docstring (a
     subclass describing an inherited field) contributes that entry (docstring.py:165-168). -/
 def scanClass (c : ClassSrc) (name : Str) : Option Doc :=
-  match scanLines (splitLines (removeDoc c.doc c.source)) name with
+  match classLines c with
+  | none => none          -- docstring.py:115-124: returned BEFORE the class docstring is looked at
+  | some ls =>
+  match scanLines ls name with
   | some d => some { d with cls := clsDesc c.params name }
   | none =>
     if (clsDesc c.params name).isEmpty then none
@@ -313,7 +320,9 @@ def scanClass (c : ClassSrc) (name : Str) : Option Doc :=
 
 /-- every field-definition line of the class is inside the modelled fragment -/
 def classModelled (c : ClassSrc) : Bool :=
-  (splitLines (removeDoc c.doc c.source)).all (fun l => !containsFieldDef l || lineModelled l)
+  match classLines c with
+  | none => true
+  | some ls => ls.all (fun l => !containsFieldDef l || lineModelled l)
 
 /-! ### MRO accumulation: `get_attribute_docstring` (46-104) -/
 
@@ -336,6 +345,45 @@ def getAttributeDocstring (perClass : List (Option Doc)) : Doc :=
 
 def attributeDoc (mro : List ClassSrc) (name : Str) : Doc :=
   getAttributeDocstring (mro.map (fun c => scanClass c name))
+
+/-! ### the caches (docstring.py:107 `lru_cache` + the in-place merge of 76-99)
+
+  `_get_attribute_docstring(cls, name)` is cached per class, and `get_attribute_docstring` uses the
+  record returned for the FIRST class of the MRO that has one as its accumulator: the merged result
+  is written into that cached record.  Classes are numbers here; `raw k` is the per-class result
+  computed from the source, `cache` holds the records that were used as accumulators. -/
+
+abbrev Cache := List (Nat × Doc)
+
+/-- what `_get_attribute_docstring(k, name)` returns now -/
+def entry (raw : Nat → Option Doc) (cache : Cache) (k : Nat) : Option Doc :=
+  match cache.lookup k with
+  | some d => some d
+  | none => raw k
+
+/-- the class whose cached record becomes the accumulator -/
+def firstFound (raw : Nat → Option Doc) (cache : Cache) : List Nat → Option Nat
+  | [] => none
+  | k :: ks => if (entry raw cache k).isSome then some k else firstFound raw cache ks
+
+/-- one `get_attribute_docstring` call: (answer, cache afterwards) -/
+def lookupMut (raw : Nat → Option Doc) (cache : Cache) (mro : List Nat) : Doc × Cache :=
+  let r := getAttributeDocstring (mro.map (entry raw cache))
+  match firstFound raw cache mro with
+  | some k0 => (r, (k0, r) :: cache)
+  | none => (r, cache)
+
+/-- a sequence of calls in one process -/
+def runLookups (raw : Nat → Option Doc) (mroOf : Nat → List Nat) : Cache → List Nat → List Doc
+  | _, [] => []
+  | cache, q :: qs => (lookupMut raw cache (mroOf q)).1 :: runLookups raw mroOf (lookupMut raw cache (mroOf q)).2 qs
+
+/-- the one-shot (fresh process) answer -/
+def pureAnswer (raw : Nat → Option Doc) (mroOf : Nat → List Nat) (q : Nat) : Doc :=
+  getAttributeDocstring ((mroOf q).map raw)
+
+/-- a linear inheritance chain of `n` classes: class `i` derives from class `i+1` -/
+def chainMro (n : Nat) (i : Nat) : List Nat := List.range' i (n - i)
 
 /-- a sequence of look-ups `(mro of the queried class, field name)` made one after the other: the
     extractor is specified as a pure function, so the answers are the one-shot answers (the code's
@@ -441,8 +489,23 @@ def Block.doc (b : Block) : Doc :=
     below := belowText b.below,
     cls := [] }
 
-def quoteFree (m : Str) : Bool := !m.contains '"' && !m.contains '\''
-def docText (m : Str) : Bool := quoteFree m && !m.contains ':'
+def Quote.other : Quote → Quote
+  | .dq => .sq
+  | .sq => .dq
+
+/-- a comment text: the comment line must not contain a triple quote (the upward scan stops there) -/
+def aboveOk (m : Str) : Bool := !hasTriple (commentLine m)
+
+/-- the text after the opening quotes of a docstring line: the other kind of triple quote does not
+    occur in it (single quote characters of the other kind, `:`, `=`, `#`, field names … are fine) -/
+def openOk (q : Quote) (w : Str) : Bool := (breakOn q.other.tok w).isNone
+
+/-- a docstring text: does not contain the quote character of its own delimiter -/
+def docLineOk (q : Quote) (m : Str) : Bool := !m.contains q.ch
+
+/-- named exclusion (finding C19-docstring-colon): an intermediate docstring line that the
+    line-oriented scanner reads as a field definition, e.g. `b: is related` -/
+def looksLikeDef (m : Str) : Bool := containsFieldDef (indent ++ m)
 
 /-- the annotation / default part tokenizes inside the modelled fragment and ends outside any
     string literal with all brackets closed; string literals in it may contain `#` -/
@@ -451,20 +514,27 @@ def tailOk (tail : Str) : Bool :=
   | some s => s.inStr.isNone && s.depth.isEmpty
   | none => false
 
-/-- well-formed blocks: the name is an identifier; the annotation/default part has no `:` (so
-    `lambda:` defaults and dict literals are outside the grammar) and is `tailOk`; comment texts
-    contain no quote characters; docstring texts contain no quote characters and no `:`; the
-    inline comment contains no `:`. -/
-def Block.wf (b : Block) : Bool :=
+/-- `Block.wf` without the exclusion `looksLikeDef` on the intermediate docstring lines -/
+def Block.wfLoose (b : Block) : Bool :=
   isIdentifier b.name && !b.tail.contains ':' && tailOk b.tail
-  && (match b.inline with
-      | some m => !m.contains ':'
-      | none => true)
-  && b.above.all quoteFree
+  && b.above.all aboveOk
   && (match b.below with
       | .none => true
-      | .one _ m => docText m
-      | .multi _ f r => docText f && r.all docText)
+      | .one q m => docLineOk q m && openOk q (m ++ q.tok)
+      | .multi q f r => docLineOk q f && openOk q f && r.all (docLineOk q))
+
+def Block.docLooksLikeDef (b : Block) : Bool :=
+  match b.below with
+  | .multi _ _ r => r.any looksLikeDef
+  | _ => false
+
+/-- well-formed blocks: the name is an identifier; the annotation/default part has no `:` (so
+    `lambda:` defaults and dict literals are outside the grammar) and is `tailOk` (names, numbers
+    without exponent, brackets, operators, one-line string literals without backslashes); the
+    inline comment is ARBITRARY text; comment lines contain no triple quote; docstring texts do not
+    contain their own quote character nor the other triple quote; no intermediate line of a
+    multi-line docstring looks like a field definition. -/
+def Block.wf (b : Block) : Bool := b.wfLoose && !b.docLooksLikeDef
 
 /-- header lines: at least one (source line 0), none looks like a field definition, and a `#` occurs
     only on the `class` line or on decorator lines (a trailing comment there is allowed) -/
